@@ -102,10 +102,17 @@ def mkRowX (cols : List Str) (sec : List Str) : Option Row :=
     match parseSecValue h, parseBody body with
     | some z, some kvs =>
       if !allDigits z then none
-      else if kvs.map (·.1) != cols then none
-      else match kvs.mapM convTiltX with
+      else if kvs.map (·.1) == cols then
+        match kvs.mapM convTiltX with
         | some cells => some { z := normI z, cells := cells, removed := false }
         | none => none
+      else if (kvs.map (·.1)).isPerm cols then
+        -- the same keys in ANOTHER ORDER (round 5, item 5): `pd.concat` aligns the one-row frame by column NAME, the cells land in the
+        -- column order of the first section
+        match (cols.mapM (fun c => (kvs.lookup c).map (fun v => (c, v)))).bind (fun kvs' => kvs'.mapM convTiltX) with
+        | some cells => some { z := normI z, cells := cells, removed := false }
+        | none => none
+      else none
     | _, _ => none
 
 /-- `Mdoc._read_mdoc` following the code on duplicate header keys and on every decimal / exponent TiltAngle spelling -/
@@ -134,7 +141,7 @@ inductive Why where
   | raises              -- `Mdoc(path)` raises
   | bracketInSection    -- a line starting with '[' inside a section
   | dupKeyInSection     -- the same key twice in one section
-  | diffKeys            -- sections with different key lists (pandas: NaN cells, written as `key = nan`)
+  | diffKeys            -- sections with different key SETS (pandas fills NaN cells; the same keys in another order are read: `mkRowX`)
   | secValueForm        -- section value `int()` accepts but `str.isdigit` does not
   | tiltForm            -- TiltAngle spelled nan / inf / infinity / with '_' / with an exponent beyond ±30
 deriving Repr, DecidableEq
@@ -178,9 +185,12 @@ def whyNone (lines : List Str) : Why :=
       let sections := secGo ('[' :: sid) [] data
       let bodies := sections.map (fun s => s.drop 1)
       let keys := bodies.map (fun b => b.map colName)
-      if bodies.any (fun b => b.any (fun l => ['['].isPrefixOf l)) then .bracketInSection
+      -- a `key = value` line of ANY section with no or several '=' (`key, value = line.split("=")` raises ValueError) and a '[' line
+      -- without '=' (`line.split("=")[1]` raises IndexError): the reader must refuse, whatever else the text contains
+      if bodies.any (fun b => b.any (fun l => if ['['].isPrefixOf l then decide ((splitEq l).length < 2) else (parseKV l).isNone)) then .raises
+      else if bodies.any (fun b => b.any (fun l => ['['].isPrefixOf l)) then .bracketInSection
       else if keys.any hasDup then .dupKeyInSection
-      else if keys.any (fun ks => ks != keys.headD []) then .diffKeys
+      else if keys.any (fun ks => !(ks.isPerm (keys.headD []))) then .diffKeys
       else if sections.any (fun s => match s.head? with
           | some h => (match parseSecValue h with | some z => secValueOutside z | none => false)
           | none => false) then .secValueForm
